@@ -692,6 +692,159 @@ theorem foldl_names {store : String → DbVal → DbVal} :
       · exact Or.inr ⟨w, List.mem_cons_self, hn.trans hn0⟩
     · exact Or.inr ⟨w', List.mem_cons_of_mem _ hw', hn⟩
 
+/-! ### what another connection sees is a prefix, table by table, of what the writer sees -/
+
+theorem rowsOf_insertRow_grows (store : String → DbVal → DbVal) (T : Tables) (m n : Text) (cells : List (Text × DbVal)) :
+    ∃ e, rowsOf (insertRow store T m cells) n = rowsOf T n ++ e := by
+  rw [rowsOf_insertRow]
+  unfold rowsOf
+  cases T.find? (fun t => sameIdent t.name n) with
+  | none => exact ⟨[], rfl⟩
+  | some t =>
+    simp only [optRows]
+    split
+    · exact ⟨_, rfl⟩
+    · exact ⟨[], by simp⟩
+
+theorem step_work_grows (E : Env DT) (s : St) (m : Step DT) (n : Text) :
+    ∃ e, rowsOf (step E s m).1.work n = rowsOf s.work n ++ e := by
+  cases ho : s.isOpen with
+  | false => rw [step_closed E s m ho]; exact ⟨[], by simp⟩
+  | true =>
+    cases m with
+    | flush => exact ⟨[], by simp [step, ho, commit]⟩
+    | close => exact ⟨[], by simp [step, ho, commit]⟩
+    | ensure d =>
+      by_cases hm : d ∈ s.seen
+      · exact ⟨[], by simp [step, ho, hm]⟩
+      · cases hk : ddlOk s.work d with
+        | false => exact ⟨[], by simp [step, ho, hm, hk]⟩
+        | true => exact ⟨[], by simp [step, ho, hm, hk, commit, rowsOf_ddl]⟩
+    | insert d vals =>
+      rw [insert_work E s d vals ho]
+      cases cellsOf E d vals with
+      | none => exact ⟨[], by simp⟩
+      | some cells => exact rowsOf_insertRow_grows E.store s.work d.name n cells
+
+theorem committed_prefix (E : Env DT) (ms : List (Step DT)) : ∀ s : St,
+    (∀ n, ∃ e, rowsOf s.work n = rowsOf s.committed n ++ e) →
+    ∀ n, ∃ e, rowsOf (runSteps E s ms).work n = rowsOf (runSteps E s ms).committed n ++ e := by
+  induction ms with
+  | nil => intro s h; exact h
+  | cons m ms ih =>
+    intro s h
+    rw [runSteps_cons]
+    apply ih
+    intro n
+    cases hc : commits E s m with
+    | true => rw [(step_committed E s m).2 hc]; exact ⟨[], by simp⟩
+    | false =>
+      rw [(step_committed E s m).1 hc]
+      obtain ⟨e1, h1⟩ := h n
+      obtain ⟨e2, h2⟩ := step_work_grows E s m n
+      exact ⟨e1 ++ e2, by rw [h2, h1, List.append_assoc]⟩
+
+/-! ### when SQLite accepts every DDL statement: column names pairwise different up to case -/
+
+/-- on `U` the case-insensitive comparison is plain equality -/
+def CaseDistinctOn (U : List Text) : Prop := ∀ a ∈ U, ∀ b ∈ U, sameIdent a b = true → a = b
+
+theorem noClash_of_nodup (U : List Text) (hU : CaseDistinctOn U) : ∀ l : List Text, l.Nodup → (∀ c ∈ l, c ∈ U) →
+    hasIdentClash l = false := by
+  intro l
+  induction l with
+  | nil => intro _ _; rfl
+  | cons a l ih =>
+    intro hnd hsub
+    simp only [List.nodup_cons] at hnd
+    simp only [hasIdentClash, Bool.or_eq_false_iff]
+    refine ⟨?_, ih hnd.2 (fun c hc => hsub c (List.mem_cons_of_mem _ hc))⟩
+    rw [List.any_eq_false]
+    intro b hb hs
+    have := hU a (hsub a List.mem_cons_self) b (hsub b (List.mem_cons_of_mem _ hb)) hs
+    exact hnd.1 (this ▸ hb)
+
+/-- every table has distinct column names, all from `U` -/
+def ColsGood (U : List Text) (T : Tables) : Prop := ∀ t ∈ T, (colNames t).Nodup ∧ ∀ c ∈ colNames t, c ∈ U
+
+def DescGood (U : List Text) (d : Desc) : Prop := (d.fields.map (·.1)).Nodup ∧ ∀ f ∈ d.fields, f.1 ∈ U
+
+theorem colsGood_addCols (U : List Text) (t : Table) (d : Desc) (ht : (colNames t).Nodup ∧ ∀ c ∈ colNames t, c ∈ U)
+    (hd : DescGood U d) : (colNames (addCols t d)).Nodup ∧ ∀ c ∈ colNames (addCols t d), c ∈ U := by
+  have hcn : colNames (addCols t d) =
+      colNames t ++ ((d.fields.filter (fun f => !(colNames t).contains f.1)).map (·.1)) := by
+    simp [colNames, addCols, List.map_map, Function.comp]
+  rw [hcn]
+  constructor
+  · apply List.nodup_append.mpr
+    refine ⟨ht.1, ?_, ?_⟩
+    · exact (List.filter_sublist.map _).nodup hd.1
+    · intro a ha b hb heq
+      obtain ⟨f, hf, rfl⟩ := List.mem_map.mp hb
+      have := (List.mem_filter.mp hf).2
+      simp only [Bool.not_eq_true', List.contains_eq_mem, decide_eq_false_iff_not] at this
+      exact this (heq ▸ ha)
+  · intro c hc
+    rcases List.mem_append.mp hc with hc | hc
+    · exact ht.2 c hc
+    · obtain ⟨f, hf, rfl⟩ := List.mem_map.mp hc
+      exact hd.2 f (List.mem_filter.mp hf).1
+
+theorem colsGood_ddl (U : List Text) (T : Tables) (d : Desc) (hT : ColsGood U T) (hd : DescGood U d) :
+    ColsGood U (ddl T d) := by
+  intro t ht
+  obtain ⟨t0, h0, rfl⟩ := mem_ddl ht
+  have h0good : (colNames t0).Nodup ∧ ∀ c ∈ colNames t0, c ∈ U := by
+    rcases mem_createTable h0 with hin | ⟨rfl, _⟩
+    · exact hT t0 hin
+    · constructor
+      · have : colNames ({ name := d.name, cols := d.fields.map (fun f => (f.1, colType f.2)), rows := [] } : Table)
+            = d.fields.map (·.1) := by
+          simp only [colNames, List.map_map]
+          apply List.map_congr_left
+          intro f _; rfl
+        rw [this]; exact hd.1
+      · intro c hc
+        simp only [colNames, List.map_map, List.mem_map, Function.comp] at hc
+        obtain ⟨f, hf, rfl⟩ := hc
+        exact hd.2 f hf
+  split
+  · exact colsGood_addCols U t0 d h0good hd
+  · exact h0good
+
+theorem colsGood_insertRow (U : List Text) (store : String → DbVal → DbVal) (T : Tables) (n : Text)
+    (cells : List (Text × DbVal)) (hT : ColsGood U T) : ColsGood U (insertRow store T n cells) := by
+  intro t ht
+  obtain ⟨t0, h0, _, hcols⟩ := mem_insertRow ht
+  have := hT t0 h0
+  simpa [colNames, hcols] using this
+
+theorem ddlOk_of_good (U : List Text) (hU : CaseDistinctOn U) (T : Tables) (d : Desc) (hT : ColsGood U T)
+    (hd : DescGood U d) : ddlOk T d = true := by
+  simp only [ddlOk, List.all_eq_true, Bool.or_eq_true, Bool.not_eq_true']
+  intro t ht
+  right
+  obtain ⟨h1, h2⟩ := colsGood_ddl U T d hT hd t ht
+  exact noClash_of_nodup U hU _ h1 h2
+
+/-- if all field names of a history are pairwise different up to case (and no descriptor repeats a field name),
+    SQLite accepts every CREATE TABLE / ADD COLUMN of the history -/
+theorem accepted_of_caseDistinct (U : List Text) (hU : CaseDistinctOn U) (store : String → DbVal → DbVal) :
+    ∀ (ws : List (Desc × Option (List (Text × DbVal)))) (T : Tables), ColsGood U T → (∀ w ∈ ws, DescGood U w.1) →
+      accepted store T ws = true := by
+  intro ws
+  induction ws with
+  | nil => intro T _ _; rfl
+  | cons w ws ih =>
+    intro T hT hws
+    have hd := hws w List.mem_cons_self
+    simp only [accepted, Bool.and_eq_true]
+    refine ⟨ddlOk_of_good U hU T w.1 hT hd, ih _ ?_ (fun w' hw' => hws w' (List.mem_cons_of_mem _ hw'))⟩
+    unfold specStep
+    split
+    · exact colsGood_insertRow U store _ _ _ (colsGood_ddl U T w.1 hT hd)
+    · exact colsGood_ddl U T w.1 hT hd
+
 /-! ### hypotheses about the runtime (never axioms) -/
 
 /-- What SQLite's storage layer is assumed to do with a bound value, by declared column type
